@@ -542,6 +542,8 @@ def _pds_to_dict(field_data):
             pds_field_length = int(field_data[field_pointer+4:field_pointer+7])
         except ValueError as ex:
             raise Iso8583DataError(f'Invalid PDS field length for PDS{pds_field_tag}', original_exception=ex)
+        if pds_field_length < 0:  # a negative length would move the pointer backwards forever
+            raise Iso8583DataError(f'Negative PDS field length for PDS{pds_field_tag}')
         LOGGER.debug("pds_field_length=[%i]", pds_field_length)
 
         # get the pds data
